@@ -336,7 +336,7 @@ fn dryoc_mprotect_readonly(data: &[u8]) -> Result<(), std::io::Error> {
     #[cfg(unix)]
     {
         use libc::{PROT_READ, c_void, mprotect as c_mprotect};
-        let ret = unsafe { c_mprotect(data.as_ptr() as *mut c_void, data.len() - 1, PROT_READ) };
+        let ret = unsafe { c_mprotect(data.as_ptr() as *mut c_void, data.len(), PROT_READ) };
         match ret {
             0 => Ok(()),
             _ => Err(std::io::Error::last_os_error()),
@@ -353,7 +353,7 @@ fn dryoc_mprotect_readonly(data: &[u8]) -> Result<(), std::io::Error> {
         let res = unsafe {
             VirtualProtect(
                 data.as_ptr() as LPVOID,
-                data.len() - 1,
+                data.len(),
                 PAGE_READONLY,
                 &mut old,
             )
@@ -376,7 +376,7 @@ fn dryoc_mprotect_readwrite(data: &[u8]) -> Result<(), std::io::Error> {
         let ret = unsafe {
             c_mprotect(
                 data.as_ptr() as *mut c_void,
-                data.len() - 1,
+                data.len(),
                 PROT_READ | PROT_WRITE,
             )
         };
@@ -396,7 +396,7 @@ fn dryoc_mprotect_readwrite(data: &[u8]) -> Result<(), std::io::Error> {
         let res = unsafe {
             VirtualProtect(
                 data.as_ptr() as LPVOID,
-                data.len() - 1,
+                data.len(),
                 PAGE_READWRITE,
                 &mut old,
             )
@@ -416,7 +416,7 @@ fn dryoc_mprotect_noaccess(data: &[u8]) -> Result<(), std::io::Error> {
     #[cfg(unix)]
     {
         use libc::{PROT_NONE, c_void, mprotect as c_mprotect};
-        let ret = unsafe { c_mprotect(data.as_ptr() as *mut c_void, data.len() - 1, PROT_NONE) };
+        let ret = unsafe { c_mprotect(data.as_ptr() as *mut c_void, data.len(), PROT_NONE) };
         match ret {
             0 => Ok(()),
             _ => Err(std::io::Error::last_os_error()),
@@ -433,7 +433,7 @@ fn dryoc_mprotect_noaccess(data: &[u8]) -> Result<(), std::io::Error> {
         let res = unsafe {
             VirtualProtect(
                 data.as_ptr() as LPVOID,
-                data.len() - 1,
+                data.len(),
                 PAGE_NOACCESS,
                 &mut old,
             )
